@@ -38,6 +38,12 @@ structure W where
 
 abbrev M (α : Type) := W → Except Exn α × W
 
+/-- The exception an outcome carries, if any. -/
+def errOf (r : Except Exn α) : Option Exn :=
+  match r with
+  | .ok _ => none
+  | .error e => some e
+
 namespace M
 
 @[inline] def pure (a : α) : M α := fun w => (.ok a, w)
